@@ -11,7 +11,7 @@ Definition enc_lent (x : lent) : T :=
   match x with
   | LPlain tok hi => Tl [Tn 0; Tnat tok; Tnat hi]
   | LStep tok hi k => Tl [Tn 1; Tnat tok; Tnat hi; Tnat k]
-  | LRes tok hi k vals err => Tl [Tn 2; Tnat tok; Tnat hi; Tnat k; Tzs vals; Tbool err]
+  | LRes tok hi k _ vals err => Tl [Tn 2; Tnat tok; Tnat hi; Tnat k; Tzs vals; Tbool err]
   | LTmo tok hi k => Tl [Tn 3; Tnat tok; Tnat hi; Tnat k]
   | LEnd tok hi => Tl [Tn 4; Tnat tok; Tnat hi]
   | LFire tok nm by_ how => Tl [Tn 5; Tnat tok; Tnat nm; Tnat by_; Tnat how]
